@@ -391,7 +391,8 @@ theorem paneTryStruct_interrupt_iff (hlen : fs.length = info.fields.length) (hnl
       (∃ f ∈ info.fields, f.init = true ∧ f.hasDefault = false ∧
         v.mapItems.any (fun p => namesField info p.1 f.name) = false) ∨
       (∃ all e, fillDefaults E (Facts.structDefaultCalled == some true) info.fields
-          (structSpec info fs v.mapItems) = some all ∧ runHook E info all = .error e) := by
+          (structSpec info fs v.mapItems) = some all ∧
+        runHook E info all ((structSpec info fs v.mapItems).map (·.1)) = .error e) := by
   unfold paneTryStruct
   rcases structLoop_verdict info fs hlen hnl v.mapItems with ⟨h1, h2⟩ | ⟨h1, h2, h3⟩
   · rw [h1]
@@ -412,7 +413,7 @@ theorem paneTryStruct_interrupt_iff (hlen : fs.length = info.fields.length) (hnl
         have := (fillDefaults_eq_none E (Facts.structDefaultCalled == some true) _
           (structSpec info fs v.mapItems) hnd).2 ⟨f, hf, hi, hd, by rw [h3]; exact ha⟩
         rw [this] at hfd; cases hfd
-      cases hh : runHook E info all with
+      cases hh : runHook E info all ((structSpec info fs v.mapItems).map (·.1)) with
       | ok final =>
         simp only [guardTry_ok]
         constructor
@@ -430,7 +431,8 @@ theorem paneTryStruct_ok_iff (hlen : fs.length = info.fields.length) (hnl : NoLe
     paneTryStruct E info fs v = .ok o ↔
       (∀ a kv b, v.mapItems = a ++ kv :: b → ¬ Offends info fs a kv) ∧
       ∃ all final, fillDefaults E (Facts.structDefaultCalled == some true) info.fields
-          (structSpec info fs v.mapItems) = some all ∧ runHook E info all = .ok final ∧
+          (structSpec info fs v.mapItems) = some all ∧
+        runHook E info all ((structSpec info fs v.mapItems).map (·.1)) = .ok final ∧
         o = mkObj info final ((structSpec info fs v.mapItems).map (·.1)) := by
   unfold paneTryStruct
   rcases structLoop_verdict info fs hlen hnl v.mapItems with ⟨h1, a, kv, b, h2, h2'⟩ | ⟨h1, h2, h3⟩
@@ -448,7 +450,7 @@ theorem paneTryStruct_ok_iff (hlen : fs.length = info.fields.length) (hnl : NoLe
       · rintro ⟨_, all, final, h, _⟩; cases h
     | some all =>
       simp only
-      cases hh : runHook E info all with
+      cases hh : runHook E info all ((structSpec info fs v.mapItems).map (·.1)) with
       | ok final =>
         simp only [guardTry_ok, Outcome.ok.injEq]
         constructor
@@ -519,6 +521,18 @@ theorem mkObj_eq (info : PaneInfo) (vals : List (String × Val)) (set : List Str
     mkObj info vals set = .obj info.name
       (info.fields.filterMap fun f => (vals.find? (·.1 == f.name)).map fun p => (f.name, p.2))
       ((info.fields.filter fun f => set.contains f.name).map (·.name)) := rfl
+
+theorem canonSet_eq (info : PaneInfo) (set : List String) :
+    canonSet info set = (info.fields.filter fun f => set.contains f.name).map (·.name) := rfl
+
+/-- the canonical record only depends on which names occur in `set` -/
+theorem canonSet_congr (info : PaneInfo) {set set' : List String}
+    (h2 : ∀ n, set.contains n = set'.contains n) : canonSet info set = canonSet info set' := by
+  unfold canonSet
+  congr 1
+  apply List.filter_congr
+  intro f _
+  exact h2 f.name
 
 /-- the set-record component of a dataclass instance -/
 def setRecord : Val → List String
@@ -800,7 +814,8 @@ theorem makeUncheckedPos_ok_iff (E : Ext) (info : PaneInfo) (vals : List Val) (o
     makeUncheckedPos E info vals = .ok o ↔
       ∃ all final,
         fillDefaults E true info.fields (((posFields info).zip vals).map fun ((f, _), x) => (f.name, x)) = some all ∧
-        runHook E info all = .ok final ∧ o = mkObj info final ((posNames info).take vals.length) := by
+        runHook E info all ((posNames info).take vals.length) = .ok final ∧
+        o = mkObj info final ((posNames info).take vals.length) := by
   unfold makeUncheckedPos
   simp only []
   rw [supplied_names]
@@ -808,7 +823,7 @@ theorem makeUncheckedPos_ok_iff (E : Ext) (info : PaneInfo) (vals : List Val) (o
   | none => simp
   | some all =>
     simp only
-    cases hh : runHook E info all with
+    cases hh : runHook E info all ((posNames info).take vals.length) with
     | ok final =>
       simp only [Except.ok.injEq, Option.some.injEq]
       constructor
